@@ -165,7 +165,7 @@ Definition ex_file2 := mkLoader 3 (LFile (Some (Some ex_d3))).
 Example c15_sequence_example :
   map lid (sequence [ex_raw; ex_file; ex_args; ex_file2]) = [3; 1; 0; 2]%nat \/
   map lid (sequence [ex_raw; ex_file; ex_args; ex_file2]) = [1; 3; 0; 2]%nat.
-Proof. left. vm_compute. reflexivity. Qed.
+Proof. right. vm_compute. reflexivity. Qed.
 
 Example c15_initialize_example :
   initialize [ex_raw; ex_file; ex_args] =
